@@ -319,5 +319,15 @@ func corpusC01() []*scen.Scenario {
 	b2.Struct("", "D", "A m.DN1")
 	m2 := &scen.Method{Name: "Differs", Src: scen.Param{Type: "*S"}, Dst: scen.Param{Type: "*D"}, Notations: []scen.Notation{scen.N("typecast")},
 		Probes: []scen.Probe{{Dst: "A", Mech: "diff", DstT: "m.DN1", SrcT: "m.SN1"}}}
-	return []*scen.Scenario{b.Manual(m), b2.Manual(m2)}
+	// repaired in 3a002dc: a converter taking *T fed from a source that fits T only through a conversion
+	// (the address of a conversion / of a String() result cannot be taken)
+	b3 := scen.NewBuilder(nil, scen.Profile{}, "kw-c01-addr-of-conversion", "kwc01c")
+	b3.Struct("", "S", "A int", "B LStr", "C LInt")
+	b3.Struct("", "D", "A int", "B int", "C int")
+	b3.Func("func cvPS(p *string) int {\n\tvtr.Enter(\"cvPS\", p)\n\treturn len(*p)\n}\n", false, "cvPS")
+	b3.Func("func cvPI(p *int) int {\n\tvtr.Enter(\"cvPI\", p)\n\treturn *p\n}\n", false, "cvPI")
+	m3 := &scen.Method{Name: "AddrOfConversion", Src: scen.Param{Type: "*S"}, Dst: scen.Param{Type: "*D"},
+		Notations: []scen.Notation{scen.N("typecast"), scen.N("stringer"), scen.N("conv", "cvPS", "A", "A"), scen.N("conv", "cvPS", "B", "B"), scen.N("conv", "cvPI", "C", "C")},
+		Probes: []scen.Probe{{Dst: "A", Mech: "conv", DstT: "int", SrcT: "int", Extra: "ptrarg"}, {Dst: "B", Mech: "conv", DstT: "int", SrcT: "LStr", Extra: "ptrarg"}, {Dst: "C", Mech: "conv", DstT: "int", SrcT: "LInt", Extra: "ptrarg"}}}
+	return []*scen.Scenario{b.Manual(m), b2.Manual(m2), b3.Manual(m3)}
 }
